@@ -265,6 +265,8 @@ def gen_template(r):
     alts.append(r.choice(['sect$num', 'sect$num(4)', 'f$num(3)', '$num', 'file-$num(2)']))
     prefix = r.choice(['', '', '', 'p_'])
     suffix = r.choice(['', '', '', '-x'])
+    if static and r.random() < 0.12:
+        static.insert(r.randrange(len(static) + 1), r.choice(static))      # the same static name twice
     if r.random() < 0.3:
         # explicit extensions (the generator must compare names WITH the default extension added)
         static = [n + '.html' if r.random() < 0.6 else n for n in static]
@@ -665,6 +667,10 @@ COLLISIONS = [
     ('index [$id, sect$num]', ['sect1', None, 'sect2']),
     ('index [$id, $title(1), f$num(2)]', ['f01', None, None]),
     ('index.html [u$title(1).html, $id, f$num(2)]', [None, 'f01', 'index']),
+    # the same static name twice (the second one is taken already and must be skipped)
+    ('index index.html [$id, sect$num(4)]', [None, 'La', None]),
+    ('index index [$id, sect$num(4)]', ['Lb', None, None]),
+    ('toc.html index toc [sect$num(2)]', [None, None, None]),
 ]
 
 
